@@ -284,7 +284,7 @@ func VerifC04_NearMiss(cs int) {
 // VerifC04_RangeEnds: ranges whose second date lies inside the period that the first one names (a
 // month and a day of it, a year and a month of it, with and without keywords), or whose dates are
 // written the later one first: each end is the date that was written at that end. Only the day is
-// symbolic (1..28), so that comparisons of the fractional-year values stay cheap. cs%5: the form.
+// symbolic (1..28), so that comparisons of the fractional-year values stay cheap. cs%7: the form (4: later date first; 5, 6: two days of one month / year).
 func VerifC04_RangeEnds(cs int) {
 	d := VsInt("day", 1, 28)
 	day := VsDecimal(d, 1)
@@ -294,7 +294,7 @@ func VerifC04_RangeEnds(cs int) {
 	}
 	var text string
 	var s, e end
-	switch cs % 5 {
+	switch cs % 7 {
 	case 0:
 		text, s, e = "Bet. Mar 1900 and "+day+" Mar 1900", end{0, 3, 1900, DateConstraintExact}, end{d, 3, 1900, DateConstraintExact}
 	case 1:
@@ -303,6 +303,16 @@ func VerifC04_RangeEnds(cs int) {
 		text, s, e = "from abt 1850 to bef. "+day+" Feb 1850", end{0, 0, 1850, DateConstraintAbout}, end{d, 2, 1850, DateConstraintBefore}
 	case 3:
 		text, s, e = "Bet. "+day+" Mar 1900 and Mar 1900", end{d, 3, 1900, DateConstraintExact}, end{0, 3, 1900, DateConstraintExact}
+	case 5, 6:
+		// two exact days of one month / of the first and the last month of one year: among them the
+		// ranges that cover exactly the whole month or year, which still are the two days written
+		d2 := VsInt("day2", 1, 31)
+		VsAssume(d <= d2)
+		m1, m2, w1, w2 := 3, 3, " Mar 1900", " Mar 1900"
+		if cs%7 == 6 {
+			m1, m2, w1, w2 = 1, 12, " Jan 1850", " Dec 1850"
+		}
+		text, s, e = "Bet. "+day+w1+" and "+VsDecimal(d2, 1)+w2, end{d, m1, 1900 - 50*(cs%7-5), DateConstraintExact}, end{d2, m2, 1900 - 50*(cs%7-5), DateConstraintExact}
 	default:
 		text, s, e = "Bet. "+day+" Dec 1950 and Aft. "+day+" Jan 1900", end{d, 12, 1950, DateConstraintExact}, end{d, 1, 1900, DateConstraintAfter}
 	}
